@@ -162,6 +162,14 @@ def as_attr(case, keep_authn=True):
     return case
 
 
+def as_factory(case):
+    """Run the case through the second public entry point (saml2.response.authn_response + loads + verify;
+    Model/SpFactory.lean) instead of Saml2Client.parse_authn_request_response."""
+    case["env"]["kind"] = "factory"
+    case["tag"] = "factory/" + case.get("tag", "")
+    return case
+
+
 def run_impl(case):
     return F.run_sp(case)
 
